@@ -1,5 +1,6 @@
 // C11: priority queues conserve items and honour priority order (DESIGN.md 9/C11)
 #include "cont.h"
+#include "seq.h"
 #include "smr_holders.h"
 #include <cds/container/mspriority_queue.h>
 #include <cds/container/fcpriority_queue.h>
@@ -34,6 +35,9 @@ struct MsPqAdapter
         switch ( op.op ) {
         case PQ_PUSH: { int i = h.call( t, PQ_PUSH, op.a ); bool ok = q->push( op.a ); h.ret( i, ok ); break; }
         case PQ_POP: { int i = h.call( t, PQ_POP ); long v = -1; bool ok = q->pop( v ); h.ret( i, ok, ok ? v : 0 ); break; }
+        case EMPTY: { int i = h.call( t, EMPTY ); h.ret( i, q->empty() ? 1 : 0 ); break; }
+        case SIZE: { int i = h.call( t, SIZE ); h.ret( i, long( q->size())); break; }
+        case CLEAR: { int i = h.call( t, CLEAR ); q->clear(); h.ret( i, 1 ); break; }
         default: break;
         }
     }
@@ -56,7 +60,9 @@ struct MsPqAdapter
             else if ( nd.m_nTag != 0 /*Empty*/ ) shape_err = "empty heap slot " + std::to_string( i ) + " is not tagged Empty";
         }
         if ( occupied != n ) shape_err = "item counter says " + std::to_string( n ) + " items, heap holds " + std::to_string( occupied );
+        q_err = shape_err;
     }
+    std::string q_err;      // seqmc looks here after every operation
     void drain( History& h )
     {
         { int i = h.call( -1, SIZE ); h.ret( i, long( q->size())); }
@@ -75,7 +81,8 @@ struct MsPqAdapter
             if ( o.op == PQ_PUSH && o.res ) pushed.insert( o.arg );
             if ( o.op == PQ_POP && o.res ) popped.insert( o.res2 );
         }
-        if ( pushed != popped ) { r.fail( "C11:not-conserved", "the multiset of popped items (including the final drain) differs from the multiset of successfully pushed items" ); return; }
+        bool cleared = false; for ( Op const& o : h.ops ) if ( o.op == CLEAR ) cleared = true;     // sequential conformance runs only: the model accounts for clear()
+        if ( !cleared && pushed != popped ) { r.fail( "C11:not-conserved", "the multiset of popped items (including the final drain) differs from the multiset of successfully pushed items" ); return; }
         // push fails only if capacity items can have been present at some instant of the call (weakest reading)
         for ( Op const& f : h.ops ) {
             if ( f.op != PQ_PUSH || f.res ) continue;
@@ -110,6 +117,9 @@ struct FcPqAdapter
         switch ( op.op ) {
         case PQ_PUSH: { int i = h.call( t, PQ_PUSH, op.a ); bool ok = q->push( op.a ); h.ret( i, ok ); break; }
         case PQ_POP: { int i = h.call( t, PQ_POP ); long v = -1; bool ok = q->pop( v ); h.ret( i, ok, ok ? v : 0 ); break; }
+        case EMPTY: { int i = h.call( t, EMPTY ); h.ret( i, q->empty() ? 1 : 0 ); break; }
+        case SIZE: { int i = h.call( t, SIZE ); h.ret( i, long( q->size())); break; }
+        case CLEAR: { int i = h.call( t, CLEAR ); q->clear(); h.ret( i, 1 ); break; }
         default: break;
         }
     }
@@ -156,6 +166,14 @@ std::vector<Scenario> g_scen;
 template <class Adapter>
 void add_family( std::string const& base, int cap, std::vector<std::vector<long>> prefixes, int step, int bq, int bt, int bq3, int bt3 )
 {
+    if ( vh::property() == "C20" ) {
+        // conformance with std::priority_queue (bounded for MSPriorityQueue): pushes with ties, pops, push on a full queue, size/empty/clear
+        std::vector<POp> a = { { PQ_PUSH, 5, 0 }, { PQ_PUSH, 7, 0 }, { PQ_PUSH, 3, 0 }, { PQ_POP, 0, 0 }, { EMPTY, 0, 0 }, { SIZE, 0, 0 }, { CLEAR, 0, 0 } };
+        std::vector<TProg> starts = { TProg() };
+        if ( prefixes.size() > 1 ) { TProg p; for ( long v : prefixes.back()) p.push_back( POp{ PQ_PUSH, v, 0 } ); starts.push_back( p ); }
+        add_seq_generic<Adapter, PCfg>( g_scen, base, PCfg{ 1, cap }, a, starts, 4, 6 );
+        return;
+    }
     // priorities with ties: values 5,5,7,3 ...
     std::vector<POp> alpha = { { PQ_PUSH, 5, 0 }, { PQ_PUSH, 7, 0 }, { PQ_POP, 0, 0 } };
     std::vector<TProg> seqs = sequences( alpha, 2 );
